@@ -311,4 +311,12 @@ def main(argv=None):
 
 
 if __name__ == "__main__":
-    sys.exit(main())
+    try:
+        rc = main()
+    except SystemExit:
+        raise
+    except BaseException:      # a crash of the checker itself is not a verdict about the property: exit 3, no VIOLATION line
+        sys.stderr.write("CHECKER-ERROR (checker crashed)\n" + traceback.format_exc())
+        print("CHECKER-ERROR checker crashed, see stderr")
+        rc = 3
+    sys.exit(rc)
